@@ -10,6 +10,8 @@ the volume-aware and lineage simulators) and 0 after a reaction or a delay deliv
 R9.5 deterministic mode: rules inside the right-hand side and re-applied to every output row.
 R9.6 each rule object is registered exactly once per initialisation (Model and LineageModel).
 R9.7 the step the rules see is the grid step: entry points set the interface dt from the grid.
+R9.8 constructors: Model.__init__ and LineageModel.__init__, partially evaluated on a sample rule list, hand every rule tuple to
+create_rule / the base constructor with its type, attributes and frequency, in order.
 """
 import ast
 
